@@ -53,7 +53,7 @@ CLASSES = ["hpolygon", "ppolygon", "segment", "tangent", "hpoint", "hpointpair"]
 OPS = ["construct", "from_object", "stack", "deepcopy", "shallowcopy", "apply", "reshape",
        "flatten", "getitem", "setitem_array", "setitem_object", "combine", "astype",
        "q_coords", "q_distance", "q_origin_to", "q_tangent", "q_circle", "q_edges",
-       "q_misc"]
+       "q_misc", "construct_int"]
 MUTATORS = {"apply", "reshape", "flatten", "setitem_array", "setitem_object", "combine",
             "astype", "stack", "getitem"}
 GOLDEN = 2.399963229728653
@@ -144,18 +144,58 @@ class Spec:
         cnt = int(np.prod(shape)) if len(shape) else 1
         K = klein_pts(vals, cnt * self.rows, self.n, off)
         P = proj_of(K).reshape(tuple(shape) + self.unit)
+        if self.name in ("segment", "hpolygon") and vals[6] > 0.5 and cnt >= 1:
+            # an endpoint / vertex exactly at the origin of the ball (1, 0, .., 0): exact zeros
+            # in the quadratic for the ideal endpoints of the edges through it
+            flat = P.reshape((cnt, self.rows, self.n + 1))
+            far = np.sum(flat[0, 0, 1:] ** 2) > 1e-4 * flat[0, 0, 0] ** 2
+            if far:
+                flat[0, 1, :] = 0.0
+                flat[0, 1, 0] = 1.0
+            P = flat.reshape(tuple(shape) + self.unit)
         if self.name == "tangent":
             # second row is an arbitrary ambient vector (not a point)
             V = P.copy()
             v = klein_pts(vals, cnt, self.n, off + 7)
             amb = np.concatenate([0.3 * v[:, :1], v], axis=-1).reshape(tuple(shape) +
                                                                      (self.n + 1,))
+            if vals[8] > 0.4:
+                # a nearly tangent ambient vector: its Minkowski projection differs from it by
+                # a few 1e-4 of the basepoint - small, and exactly what the derived data is
+                # there to remove
+                pt = V[..., 0, :]
+                amb = amb - (mink(amb, pt) / mink(pt, pt))[..., None] * pt
+                amb = amb + (4e-4 * (1 + abs(vals[7]))) * pt / np.sqrt(-mink(pt, pt))[..., None]
             V[..., 1, :] = amb
             return V
         return P
 
     def build(self, arr):
         return self.cls(arr)
+
+    def int_data(self, vals, shape):
+        """integer-typed primary data (int64): points (8, a, b, ..) with |a|, |b| <= 3 spread
+        around a circle - timelike, and pairwise distinct within a unit by construction"""
+        cnt = int(np.prod(shape)) if len(shape) else 1
+        rows = max(self.rows, 1)
+        out = np.zeros((cnt, rows, self.n + 1), dtype=np.int64)
+        phi = math.pi * vals[0]
+        for u in range(cnt):
+            for r in range(rows):
+                a = phi + 0.37 * u + 2 * math.pi * r / max(rows, 2)
+                out[u, r, 0] = 8
+                out[u, r, 1] = int(round(3 * math.cos(a)))
+                out[u, r, 2] = int(round(3 * math.sin(a)))
+                if self.n >= 3:
+                    out[u, r, 3] = int(round(2 * vals[(u + r) % len(vals)]))
+        if self.name == "tangent":
+            for u in range(cnt):
+                v = [int(round(3 * vals[(u + 1 + j) % len(vals)])) for j in range(self.n)]
+                if not any(v):
+                    v[0] = 1
+                out[u, 1, 0] = 0
+                out[u, 1, 1:] = v
+        return out.reshape(tuple(shape) + self.unit)
 
 
 def ideal_endpoints_of(P):
@@ -383,6 +423,21 @@ def run_history(case, ctx):
             arr = fresh(vals, shape, off=i % 5)
             obj = spec.build(arr)
             add(Entry(obj), j)
+        elif op == "construct_int":
+            # integer-typed primary data: the derived data is computed from the same values
+            # (the object itself is only converted, not queried: in-place normalisation of
+            # an integer array is refused by NumPy, loudly)
+            shape = SHAPES[kk % len(SHAPES)]
+            iarr = spec.int_data(vals, shape)
+            iobj = spec.build(iarr.copy())
+            ctx.check(np.array_equal(np.asarray(iobj.proj_data), iarr), "integer primary data "
+                      "is stored with its values")
+            check_object(ctx, spec, iobj, 1e-9, "integer-typed construction")
+            fobj = iobj.astype("float64")
+            ctx.close("astype(float64) of integer-typed data keeps the values",
+                      np.asarray(fobj.proj_data), iarr.astype(float), rtol=0, atol=0)
+            add(Entry(fobj), j)
+            labels_mut = True
         else:
             e = pool[i % len(pool)]
             X = e.obj
